@@ -902,8 +902,15 @@ func (s *Sim) Drain() {
 			continue
 		}
 		// barrier: wait until the management goroutine has processed everything queued so far
-		n.DV.VerifNfdc().Exec(nfdc.NfdMgmtCmd{Module: barrierModule, Cmd: "sync", Args: &mgmt.ControlArgs{}, Retries: 1})
-		<-n.Eng.barrier
+		// (Retries < 0 = "until it succeeds", and the engine answers the barrier with success: whatever
+		// a changed loop does with its retry accounting, this command is executed exactly once. A loop
+		// that never gets to it - stuck on an earlier command - is a verdict, not a hang.)
+		n.DV.VerifNfdc().Exec(nfdc.NfdMgmtCmd{Module: barrierModule, Cmd: "sync", Args: &mgmt.ControlArgs{}, Retries: -1})
+		select {
+		case <-n.Eng.barrier:
+		case <-time.After(3 * time.Minute):
+			panic("management loop (nfdc.NfdMgmtThread.Start) does not process its queue: a command queued behind the router's own commands is never executed")
+		}
 		cmds := n.Eng.execd
 		n.Eng.execd = nil
 		n.LastCmds = cmds
